@@ -62,7 +62,7 @@ def run_unit(spec_name, seed=None, rlimit=None, extra_args=(), keep_name=None, t
     os.makedirs(BUILD, exist_ok=True)
     spec_path = os.path.join(VERIF, "contracts", spec_name + ".spec")
     res = {"unit": spec_name, "status": "ok", "failures": [], "verified": 0, "errors": 0, "wall_s": 0.0,
-           "fns": [], "rules": [], "smt_ms": 0, "notes": []}
+           "fns": [], "fns_assumed": [], "fns_trusted": [], "rules": [], "smt_ms": 0, "notes": []}
     t0 = time.time()
     try:
         u, out, rules, fns = extractor.assemble(spec_path)
@@ -77,7 +77,9 @@ def run_unit(spec_name, seed=None, rlimit=None, extra_args=(), keep_name=None, t
     open(unit_path, "w").write(text)
     res["unit_path"] = unit_path
     res["hash"] = hashlib.sha256(text.encode()).hexdigest()[:16]
-    res["fns"] = [(f.file, f.name) for f in fns]
+    res["fns"] = [(f.file, f.name) for f in fns if not f.opts.get("contract_only") and not f.opts.get("trusted")]
+    res["fns_assumed"] = [(f.file, f.name) for f in fns if f.opts.get("contract_only")]
+    res["fns_trusted"] = [(f.file, f.name) for f in fns if f.opts.get("trusted")]
     res["rules"] = sorted(rules)
     res["linemap"] = out.map
     res["clauses"] = sorted({o[6] for o in out.map if o[0] == "clause"})
